@@ -253,4 +253,5 @@ def parts(tier, seed):
         enum_part('match-exhaustive-q4p3', match_exhaustive(4, 3), run_match, exhaustive=True),
         hyp_part('tok-random', tok_cases, run_tok, 200000, min_shard=500),
         hyp_part('match-random', match_cases, run_match, 200000, min_shard=500),
+        __import__('checks.fuzz_tier', fromlist=['x']).atheris_part('atheris-coverage-guided', 'c16', 120, run_any),
     ]
